@@ -1,6 +1,6 @@
 (* C04 — fs/reader file.ReadAt (Model/HostileRead.v): no panic, no endless loop, for every chunk lookup. *)
 From Coq Require Import List ZArith NArith Bool Lia.
-From SV Require Import Model.Footer Model.HostileRead Proofs.Footer.
+From SV Require Import Model.Footer Model.HostileRead Model.HostileTree Proofs.Footer.
 Import ListNotations.
 Local Open Scope Z_scope.
 
@@ -140,4 +140,28 @@ End Proofs.
 (* a chunk larger than any buffer the process can obtain, read at an unaligned offset: Grow panics *)
 Lemma read_at_huge_chunk_panics :
   read_at (fun _ => Some (0, 4611686018427387904)) (fun _ => mkIt false (Some 4) true) 2147483648 1 4 = Panic.
+Proof. vm_compute. reflexivity. Qed.
+
+(* capacity hint of the chunk table (C04-fix-16): in range for all int64 sizes *)
+Lemma chunk_table_cap_total max_cap size cs nentries :
+  in64 size -> in64 cs -> 1 <= nentries <= max_cap -> max_cap < two63 ->
+  SV.Proofs.Footer.total (HostileTree.chunk_table_cap max_cap size cs nentries).
+Proof.
+  intros Hs Hc Hn Hm. unfold HostileTree.chunk_table_cap.
+  destruct ((0 <? cs) && (cs <? size)) eqn:E; [|auto with c04].
+  apply andb_true_iff in E. destruct E as [E1 E2]. apply Z.ltb_lt in E1. apply Z.ltb_lt in E2.
+  assert (Hq : 1 <= size / cs <= size).
+  { split; [apply Z.div_le_lower_bound; lia|apply Z.div_le_upper_bound; nia]. }
+  unfold in64 in *.
+  set (n' := if nentries <=? size / cs then nentries - 1 else size / cs).
+  assert (Hn' : 0 <= n' < nentries).
+  { unfold n'. destruct (nentries <=? size / cs) eqn:L; [apply Z.leb_le in L|apply Z.leb_gt in L]; lia. }
+  rewrite wrap64_in_range by (unfold two63 in *; lia).
+  unfold HostileTree.make_cap.
+  destruct ((n' + 1 <? 0) || (max_cap <? n' + 1)) eqn:B; [|auto with c04].
+  apply orb_true_iff in B. destruct B as [B|B]; apply Z.ltb_lt in B; lia.
+Qed.
+
+Lemma chunk_table_cap_before_fix16_panics :
+  HostileTree.chunk_table_cap_before_fix16 1000000 9223372036854775807 1 1 = Panic.
 Proof. vm_compute. reflexivity. Qed.
